@@ -29,6 +29,7 @@ type c09Case struct {
 	Fault    *sim.Fault `json:"fault,omitempty"`
 	Pend     int        `json:"pend,omitempty"`
 	WriteMem string     `json:"write_mem,omitempty"`
+	Setup    bool       `json:"setup,omitempty"` // step of the session set-up block before the configuration is retrieved
 	// From the reference run: class and text of the faulted step.
 	StepClass string `json:"step_class"`
 	StepRaw   string `json:"step_raw"`
@@ -82,8 +83,13 @@ func kindFamily(kind string) string {
 // verdict on login, configuration retrieval, change or save, i.e.
 // whether an output-type fault there is a rejection of something the
 // run depends on. Transport faults count at every step.
-func verdictStep(typ, class, raw, kind string) bool {
+func verdictStep(typ, class, raw, kind string, setup bool) bool {
 	if class == "cleanup" || class == "end" || raw == "<session-start>" {
+		return false
+	}
+	if setup && class == "mode" && kindFamily(kind) == "output" {
+		// 'configure terminal' / 'end' around the terminal width setting:
+		// part of the terminal set-up whose output the tool does not read.
 		return false
 	}
 	if f := kindFamily(kind); f != "output" && f != "status" {
@@ -158,7 +164,7 @@ func judgeC09(c *c09Case, lr *liveResult) (clause, what string) {
 	// Converse clause, checked on every run: OK only if nothing was
 	// faulted and save/commit was confirmed.
 	if c.FrontEnd == "do-approve" && !c.Compare && st.Approve.Result == "OK" {
-		if faultOrd >= 0 && verdictStep(c.Type, c.StepClass, c.StepRaw, faultKind) {
+		if faultOrd >= 0 && verdictStep(c.Type, c.StepClass, c.StepRaw, faultKind, c.Setup) {
 			return "ok-despite-fault", fmt.Sprintf("status OK although fault %s was delivered at step %d (%s)", faultKind, faultOrd, c.StepRaw)
 		}
 		for _, e := range lr.Events {
@@ -173,7 +179,7 @@ func judgeC09(c *c09Case, lr *liveResult) (clause, what string) {
 	if faultOrd < 0 || c.Fault == nil {
 		return "", ""
 	}
-	if !verdictStep(c.Type, c.StepClass, c.StepRaw, faultKind) {
+	if !verdictStep(c.Type, c.StepClass, c.StepRaw, faultKind, c.Setup) {
 		return "", ""
 	}
 	for _, e := range lr.Events {
@@ -288,13 +294,19 @@ func checkC09(tier, replay string) int {
 					// Tolerated notice lines followed by a refusal.
 					kinds = append(kinds, "warn-error")
 				}
+				setup := true
+				for _, pe := range refEvents[i][:j] {
+					if pe.Raw == "write term" || pe.Raw == "sh run" || pe.Raw == "sh running-config" {
+						setup = false
+					}
+				}
 				for _, kind := range kinds {
 					if kind == "stall" && tier == "quick" && (e.Ord+int(env.Seed))%5 != 0 {
 						continue
 					}
 					cases = append(cases, &c09Case{Type: k.typ, FrontEnd: k.fe, Compare: k.cmp, Scenario: k.sc, Pend: 1,
 						Fault: &sim.Fault{Ord: e.Ord, Kind: kind}, StepClass: e.Class, StepRaw: e.Raw,
-						FirstOfJoined: firstOfJoined})
+						FirstOfJoined: firstOfJoined, Setup: setup})
 				}
 			}
 			if k.typ == "ios" && !k.cmp {
